@@ -371,11 +371,11 @@ theorem appendHist_drop_legit (a : Agent) (c : Cbd) (h : memExact a)
     · simp [h1, h2] at hd
   · simp [h1] at hd
 
-example : (appendHist { initAgent false false 0 0 with memSize := 1000, ballast := 1000 } ⟨7, 0, true⟩).dropped = [7] := by decide
-example : (appendHist { initAgent false false 0 0 with memSize := 999, ballast := 999 } ⟨7, 0, true⟩).dropped = [] := by decide
+example : (appendHist { initAgent false false 0 0 with memSize := memLimit, ballast := memLimit } ⟨7, 0, true⟩).dropped = [7] := by decide
+example : (appendHist { initAgent false false 0 0 with memSize := memLimit - dataSize 7, ballast := memLimit - dataSize 7 } ⟨7, 0, true⟩).dropped = [] := by decide
 
 /-- the seeded variant (size added even when the data was dropped from memory) breaks exactness -/
-example : ¬ memExact (let a := appendHist { initAgent true false 0 0 with memSize := 1000, ballast := 1000 } ⟨7, 3, true⟩
+example : ¬ memExact (let a := appendHist { initAgent true false 0 0 with memSize := memLimit, ballast := memLimit } ⟨7, 3, true⟩
                       { a with memSize := a.memSize + 1 }) := by
   unfold memExact; decide
 
